@@ -116,8 +116,12 @@ BlkHead(bl) == CASE bl = "module" -> << >> [] bl = "def" -> << Code(0) >> [] OTH
 BlkFoot(bl) == CASE bl \in {"if", "for", "with"} -> << Code(1) >>
               [] bl \in {"if_else", "try"}    -> << Code(1), Code(2) >>      \* `else:` / `except ...:` + a statement
               [] OTHER -> << >>
+\* (unused variables / missing_f / await only exist inside functions; the helper `deco` is defined after the frame, so
+\*  nothing decorated at module level; missing_f is not raised for names of an enclosing function)
 BlockOK(k, y, bl) ==
     /\ (bl = "module") => (k \in {"use_fstrings", "ignore"} /\ y \notin {"deco_def", "deco2_def", "oneline_if"})
+    /\ (bl = "nested_def") => k # "missing_f"
+AfterOK(bl, x) == ~(bl = "module" /\ x = "deco_def")
 
 AllBefores == {"none", "stmt", "comment", "blank", "paren_stmt", "bs_stmt", "dq_block", "doc1"}
 BeforeLines(x, b) ==
@@ -275,7 +279,7 @@ PickKind   == stage = "kind"   /\ \E k \in Kinds : c' = [c EXCEPT !.kind = k] /\
 PickLayout == stage = "layout" /\ \E y \in Layouts : LayoutOK(c.kind, y) /\ c' = [c EXCEPT !.layout = y] /\ stage' = "block"
 PickBlock  == stage = "block"  /\ \E bl \in Blocks : BlockOK(c.kind, c.layout, bl) /\ c' = [c EXCEPT !.block = bl] /\ stage' = "before"
 PickBefore == stage = "before" /\ \E x \in Befores : c' = [c EXCEPT !.before = x] /\ stage' = "after"
-PickAfter  == stage = "after"  /\ \E x \in Afters : c' = [c EXCEPT !.after = x] /\ stage' = "eof"
+PickAfter  == stage = "after"  /\ \E x \in Afters : AfterOK(c.block, x) /\ c' = [c EXCEPT !.after = x] /\ stage' = "eof"
 PickEof    == stage = "eof"    /\ \E e \in Eofs : EofOK(c.block, c.after, e) /\ c' = [c EXCEPT !.eof = e] /\ stage' = "done"
 Next == PickKind \/ PickLayout \/ PickBlock \/ PickBefore \/ PickAfter \/ PickEof
 Done == stage = "done"
